@@ -782,16 +782,18 @@ func premQuorum0(c *Ctx, ms map[string]*fsmx.Machine, s *panicSite) (bool, strin
 	if !okStore {
 		return false, "actionInitSignatureProposal does not key the quorum by the index of the participant list"
 	}
-	// Validate rejects lists shorter than a positive minimum
-	okMin := false
-	for _, cd := range ssax.Conds(val) {
-		la := lenArg(cd.X)
-		if la == nil || !strings.HasSuffix(ssax.Path(la), ".Participants") {
+	// Validate rejects lists shorter than a positive minimum: every nil return lies behind an edge on which
+	// len(Participants) >= 1 (whatever way the comparison is written)
+	atLeast := lenAtLeastEdges(val, func(p string) bool { return strings.HasSuffix(p, ".Participants") }, 1)
+	okMin := len(atLeast) > 0
+	for _, ret := range ssax.Returns(val) {
+		if ret.Block() == val.Recover || len(ret.Results) != 1 {
 			continue
 		}
-		k, isC := ssax.ConstInt(cd.Y)
-		if isC && ((cd.Op == token.LSS && k >= 1) || (cd.Op == token.LEQ && k >= 0) || (cd.Op == token.EQL && k == 0)) {
-			okMin = true
+		for _, lf := range ssax.Leaves(ret.Results[0], ret) {
+			if ssax.IsNilConst(ssax.Resolve(lf.V)) && ssax.ReachableAvoiding(val, lf.At, atLeast, nil) {
+				okMin = false
+			}
 		}
 	}
 	if !okMin {
@@ -960,4 +962,89 @@ func premRecover(c *Ctx, ms map[string]*fsmx.Machine, s *panicSite) (bool, strin
 		return false, "reconstructThresholdSignature is reachable without resp.State == " + st
 	}
 	return true, "called only under resp.State == " + st + ", which lies behind the allocating event"
+}
+
+
+// lenAtLeastEdges: the branch edges of fn on which len(x) >= min is known, for values x whose access path satisfies match;
+// every way of writing the comparison is covered (either polarity, constant on either side, negated).
+func lenAtLeastEdges(fn *ssa.Function, match func(path string) bool, min int64) []ssax.Edge {
+	var out []ssax.Edge
+	for _, cd := range ssax.Conds(fn) {
+		la := lenArg(cd.X)
+		if la == nil || !match(ssax.Path(la)) {
+			continue
+		}
+		k, isC := ssax.ConstInt(cd.Y)
+		if !isC {
+			continue
+		}
+		t, f := ssax.Edge{From: cd.If.Block(), Succ: 0}, ssax.Edge{From: cd.If.Block(), Succ: 1}
+		switch cd.Op {
+		case token.LSS: // len < k  => on the false edge len >= k
+			if k >= min {
+				out = append(out, f)
+			}
+		case token.LEQ: // len <= k => false edge: len >= k+1
+			if k+1 >= min {
+				out = append(out, f)
+			}
+		case token.GEQ:
+			if k >= min {
+				out = append(out, t)
+			}
+		case token.GTR:
+			if k+1 >= min {
+				out = append(out, t)
+			}
+		case token.EQL: // len == 0 => false edge: len >= 1
+			if k == 0 && min <= 1 {
+				out = append(out, f)
+			}
+		case token.NEQ:
+			if k == 0 && min <= 1 {
+				out = append(out, t)
+			}
+		}
+	}
+	return out
+}
+
+
+// emptyEdges: the branch edges of fn on which a string or slice whose access path satisfies match is empty, whatever way
+// the test is written (x == "", len(x) == 0, len(x) < 1, len(x) <= 0, and the complements of != / > / >=).
+func emptyEdges(fn *ssa.Function, match func(path string) bool) []ssax.Edge {
+	var out []ssax.Edge
+	for _, cd := range ssax.Conds(fn) {
+		t, f := ssax.Edge{From: cd.If.Block(), Succ: 0}, ssax.Edge{From: cd.If.Block(), Succ: 1}
+		// direct comparison with the empty string
+		if cd.Op == token.EQL || cd.Op == token.NEQ {
+			for _, pr := range [][2]ssa.Value{{cd.X, cd.Y}, {cd.Y, cd.X}} {
+				if pr[1] == nil {
+					continue
+				}
+				if s, ok := ssax.ConstString(pr[1]); ok && s == "" && match(ssax.Path(pr[0])) {
+					if cd.Op == token.EQL {
+						out = append(out, t)
+					} else {
+						out = append(out, f)
+					}
+				}
+			}
+		}
+		la := lenArg(cd.X)
+		if la == nil || !match(ssax.Path(la)) {
+			continue
+		}
+		k, isC := ssax.ConstInt(cd.Y)
+		if !isC {
+			continue
+		}
+		switch {
+		case cd.Op == token.EQL && k == 0, cd.Op == token.LSS && k == 1, cd.Op == token.LEQ && k == 0:
+			out = append(out, t)
+		case cd.Op == token.NEQ && k == 0, cd.Op == token.GEQ && k == 1, cd.Op == token.GTR && k == 0:
+			out = append(out, f)
+		}
+	}
+	return out
 }
